@@ -26,14 +26,28 @@ def project_u(U):
     return g
 
 
+def dress(U):
+    """field values with boundary cases (0 is not None), custom attributes, WBS-level attributes"""
+    import datetime as _dt
+    for i, w in enumerate(U.wbs):
+        w.label = "L%d" % (i + 1)
+        w.meta = None
+    for i, t in enumerate(U.tasks):
+        if i % 2 == 0:
+            t.tag = i + 3
+        t.estimate = (0, 2.5, None, 0.0)[i % 4]
+        t.spent = (None, 0, 1, 0.0)[i % 4]
+        t.milestone = i % 3 == 1
+        t.resource = ("", None, "ann")[i % 3]
+        t.start = None if i % 2 else _dt.datetime(2024, 1, 1 + i)
+        t.min_start = _dt.datetime(2024, 2, 1) if i % 3 == 0 else None
+        t.note = None if i % 2 else ""
+
+
 def states(ids, W, max_states, log):
     """reachable states of the real objects (core setters only), no judging: the graph engine does that"""
     U0 = graph.Universe(ids, W)
-    for i, w in enumerate(U0.wbs):
-        w.label = "L%d" % (i + 1)
-    for i, t in enumerate(U0.tasks):
-        if i % 2 == 0:
-            t.tag = i + 3
+    dress(U0)
     alphabet = graph.alphabet(len(ids), W, L=2, ids=ids, level=1)
     seen = {graph.state_key(graph.project(U0, obs=False))}
     frontier = [pickle.dumps(U0)]
@@ -240,11 +254,7 @@ def run(tier, seed, log):
 def rebuild(case):
     """a universe in the recorded projected state (links and hierarchy re-created through the API)"""
     U = graph.Universe(case["ids"], case["W"])
-    for i, w in enumerate(U.wbs):
-        w.label = "L%d" % (i + 1)
-    for i, t in enumerate(U.tasks):
-        if i % 2 == 0:
-            t.tag = i + 3
+    dress(U)
     g = case["pre"]
     n = U.n
 
